@@ -2,6 +2,7 @@ import PlzVerif.Lemmas.AspOps
 import PlzVerif.Lemmas.AspOpsPrefix
 import PlzVerif.Lemmas.AspReadOnly
 import PlzVerif.Lemmas.AspIntProgram
+import PlzVerif.Lemmas.AspSort
 import PlzVerif.Model.AspInterp
 import PlzVerif.Model.PyInterp
 import PlzVerif.Model.AspGenerated
@@ -49,7 +50,11 @@ def FactsOK : Bool :=
   !F.sortedInPlace && !F.reversedInPlace &&
   -- the shape of `interpretOps` that Model/AspOps.lean transcribes: one precedence comparison `ops[0] >= ops[1]`,
   -- a recursion on `ops[1:]` in each of the three branches, the evaluated rest handed back to `interpretOp`
-  raw.opsCompare == "ops[0] >= ops[1]" && raw.opsRestCalls == 3 && raw.opsRecheck
+  raw.opsCompare == "ops[0] >= ops[1]" && raw.opsRestCalls == 3 && raw.opsRecheck &&
+  -- `sorted(reverse=True)` runs the same sort with the comparison flipped (tied elements keep their original order);
+  -- the sort function is one the model knows (sort.Slice: an insertion sort, hence stable, up to 12 elements)
+  raw.sortedReverse == "flip-comparator" &&
+  raw.sortedSortFns.all (fun f => ["sort.Slice", "sort.SliceStable", "slices.SortStableFunc"].contains f)
 
 /-- Obligation a code change can break. -/
 theorem C16_facts_ok : FactsOK = true := by decide
@@ -561,6 +566,56 @@ theorem C16_program_arith (op : BinOp) (x y : Int) (hx : litOK x) (hy : litOK y)
 
 -- the hypotheses are met by the operands of the two old witnesses
 example : litOK (-7) ∧ litOK 3 ∧ litOK 9007199254740993 ∧ litOK 1 := by unfold litOK; decide
+
+/-! ### `sorted(key=…, reverse=…)`: the order of tied elements -/
+
+open PlzVerif.SortSpec in
+/-- **The sort of the asp model is the sort of the reference**, for all lists and every strict weak order on the
+    (key, element) pairs — ascending and, with the comparison flipped as `sorted(reverse=True)` does it, descending:
+    `Asp.stableSort` (Go's insertion sort front to back) and `Py.stableSort` (insertion back to front) with a pure
+    comparison both compute `sortB`, the stable sort.  Tied elements keep their original order in both directions. -/
+theorem C16_sort_agrees :
+    (∀ (lt : Asp.Val × Asp.Val → Asp.Val × Asp.Val → Bool), StrictWeak lt → ∀ l,
+      Asp.stableSort (fun a b => (pure (lt a b) : EM Bool)) l = pure (sortB lt l) ∧
+      Asp.stableSort (fun a b => (pure (lt b a) : EM Bool)) l = pure (sortB (fun a b => lt b a) l)) ∧
+    (∀ (lt : Py.Val → Py.Val → Bool) l,
+      Py.stableSort (fun a b => (pure (lt a b) : Py.PM Bool)) l = pure (sortB lt l) ∧
+      Py.stableSort (fun a b => (pure (lt b a) : Py.PM Bool)) l = pure (sortB (fun a b => lt b a) l)) := by
+  refine ⟨fun lt h l => ⟨?_, ?_⟩, fun lt l => ⟨py_stableSort_pure lt l, py_stableSort_pure (fun a b => lt b a) l⟩⟩
+  · rw [asp_stableSort_pure, sortA_eq_sortB h]
+  · rw [asp_stableSort_pure (fun a b => lt b a), sortA_eq_sortB h.flip]
+
+-- comparing keys by `<` on ints is a strict weak order (the hypothesis is met)
+open PlzVerif.SortSpec in
+example : StrictWeak (fun (a b : Int × String) => decide (a.1 < b.1)) :=
+  ⟨fun a b c h1 h2 => by simp only [decide_eq_true_eq] at *; omega,
+   fun a b c h1 h2 => by simp only [decide_eq_false_iff_not] at *; omega⟩
+
+open PlzVerif.SortSpec in
+/-- **Sorting ascending and reversing afterwards is not `sorted(reverse=True)`**: on words keyed by their length,
+    `["bb", "a", "cc"]` gives `bb, cc, a` with the flipped comparison (ties in original order, as in Python) and
+    `cc, bb, a` when the ascending result is reversed. -/
+theorem C16_reverse_after_differs :
+    sortA (fun (a b : Nat × String) => decide (b.1 < a.1)) [(2, "bb"), (1, "a"), (2, "cc")]
+      = [(2, "bb"), (2, "cc"), (1, "a")] ∧
+    (sortA (fun (a b : Nat × String) => decide (a.1 < b.1)) [(2, "bb"), (1, "a"), (2, "cc")]).reverse
+      = [(2, "cc"), (2, "bb"), (1, "a")] := by decide
+
+/-- `ws = ["bb", "a", "cc", "d", "eee"]; r = sorted(ws, key=lambda w: len(w), reverse=True)` -/
+def wSortKey : Program :=
+  [.assign "ws" (.list 1 [.str "bb", .str "a", .str "cc", .str "d", .str "eee"]),
+   .assign "r" (.call "sorted" [(none, .name "ws"), (some "key", .lam ["w"] (.call "len" [(none, .name "w")])),
+      (some "reverse", .tru)])]
+
+/-- The facts of a `sorted` that sorts ascending and calls `slices.Reverse` for `reverse=True`. -/
+def revAfter : Facts := { F with sortedRevAfter := true }
+
+set_option maxRecDepth 100000 in
+/-- At today's facts the program agrees with Python (`eee, bb, cc, a, d`); with reverse-after-sort it does not
+    (`eee, cc, bb, d, a`): the fact `sortedReverse` is necessary. -/
+theorem C16_witness_sorted_reverse_after :
+    (disagree false 60 wSortKey = false ∧ bothRun F false 60 wSortKey = true) ∧
+    disagreeF revAfter false 60 wSortKey = true := by decide +kernel
 
 /-! ### Program level: every integer program, any length, any nesting, any environment
 
